@@ -253,6 +253,56 @@ def rendersTag (cap : Nat) (units : List Nat) (tag : Bytes) : Bool :=
     (utf8OfUnits us).isPrefixOf tag
   else false
 
+/-! ### Text as Unicode scalar values (what "the string equals the tag" means) -/
+
+/-- a Unicode scalar value: a code point that is not a surrogate -/
+def isScalar (cp : Nat) : Bool := decide (cp < 0x110000) && !(decide (0xD800 ≤ cp) && decide (cp < 0xE000))
+
+/-- UTF-8 form of a list of code points (standard encoding lengths) -/
+def utf8OfScalars (cps : List Nat) : Bytes := cps.flatMap utf8OfUnits.enc
+
+/-- UTF-16 form of one code point -/
+def utf16OfScalar (cp : Nat) : List Nat :=
+  if cp < 0x10000 then [cp] else [0xD800 + (cp - 0x10000) / 1024, 0xDC00 + (cp - 0x10000) % 1024]
+
+/-- the code points a UTF-16 string denotes; an unpaired surrogate stands for itself -/
+def scalarsOfUnits : List Nat → List Nat
+  | [] => []
+  | [u] => [u]
+  | u :: v :: r =>
+    if 0xD800 ≤ u ∧ u < 0xDC00 ∧ 0xDC00 ≤ v ∧ v < 0xE000 then
+      (0x10000 + (u - 0xD800) * 1024 + (v - 0xDC00)) :: scalarsOfUnits r
+    else u :: scalarsOfUnits (v :: r)
+
+/-- well-formed UTF-16: every unit is a 16-bit value and every surrogate is half of a
+high–low pair (decidable) -/
+def wfUtf16 : List Nat → Bool
+  | [] => true
+  | [u] => decide (u < 0xD800) || (decide (0xE000 ≤ u) && decide (u < 0x10000))
+  | u :: v :: r =>
+    if u < 0xD800 ∨ (0xE000 ≤ u ∧ u < 0x10000) then wfUtf16 (v :: r)
+    else if 0xD800 ≤ u ∧ u < 0xDC00 ∧ 0xDC00 ≤ v ∧ v < 0xE000 then wfUtf16 r
+    else false
+
+/-- 16-bit code units (surrogates in any arrangement allowed) -/
+def units16 (us : List Nat) : Bool := us.all fun u => decide (u < 0x10000)
+
+/-! ### The property as a reader states it -/
+
+/-- `f` is a well-formed, self-consistent VGM file whose GD3 block holds exactly the strings
+`strs`: magic and EOF offset exact; from the data offset the stream consists of defined commands
+only, up to the end marker (`cs`), followed by `tail`; the header's total sample count is the sum
+of all waits; the loop fields are zero, or the loop offset addresses a command boundary and the
+loop sample count is the sum of the waits from there to the end; the GD3 offset addresses `tail`;
+the clock of every chip written to is declared; every stream start addresses bytes of the data
+bank loaded before it; `tail` is exactly one GD3 block (magic, version, length) splitting into the
+NUL-terminated UTF-16 strings `strs`. -/
+structure WellFormed (f : Bytes) (strs : List (List Nat)) : Prop where
+  magic : magicOk f
+  eof : eofOk f
+  body : ∃ cs tail, streamIs f cs tail ∧ sampleTotalOk f cs ∧ loopOk f cs ∧ gd3OffsetOk f cs ∧
+    clocksOk f cs ∧ pcmOk cs ∧ gd3Is tail strs
+
 /-! ### Executable analysis used by the judge (one pass; the same definitions as above) -/
 
 structure Info where
